@@ -205,3 +205,70 @@ Proof.
       exists cmp, r, l, p, av, v. left. reflexivity.
     + right. exists cmp, r, l, p, av, v. right. exact Hin.
 Qed.
+
+(* ====================================================================================================================
+   The abstract reference semantics of the statement's "contain exactly the objects announced and not since killed
+   (directly or through a killed ancestor) or unloaded".  Definitions only (lemmas: SceneGraphRefProofs.v).
+
+   A flat state: which full ids are live, with the (region, local id, parent id, avatar?) they were last announced
+   with, and which regions are tracked.  No local-id index, no child lists, no orphan lists, no recursion over the
+   model's structures.  harness/props/c14.py:Spec is the literal Python transcription (tied by the "reference"
+   correspondence suite: extracted ref_step vs Spec vs the real managers after every step). *)
+Record rob := mkRob { x_region : N; x_lid : N; x_parent : N; x_av : bool }.
+Record refst := mkRefSt { rf_live : list (N * rob); rf_tracked : list N }.
+
+Definition ref_init : refst := mkRefSt [] [].
+
+(* Spec.at: the live object announced at (region, local id) *)
+Fixpoint ref_at (live : list (N * rob)) (r l : N) : option (N * rob) :=
+  match live with
+  | [] => None
+  | (f, o) :: t => if (x_region o =? r) && (x_lid o =? l) then Some (f, o) else ref_at t r l
+  end.
+
+(* Spec.doomed: does KillObject (r, l) remove o?  Walk up the parent ids: o dies when it is the killed id, or when it
+   is not an avatar and its parent id is the killed id or names a live object of the region that dies.
+   (avatars sitting on a killed object are spared, and with them everything sitting on them; parent id 0 = none) *)
+Fixpoint doomed (fuel : nat) (live : list (N * rob)) (r l : N) (o : rob) : bool :=
+  match fuel with
+  | O => false
+  | S n =>
+    (x_region o =? r) &&
+    ((x_lid o =? l) ||
+     (negb (x_av o) && negb (x_parent o =? 0) &&
+      ((x_parent o =? l) ||
+       match ref_at live r (x_parent o) with Some (_, po) => doomed n live r l po | None => false end)))
+  end.
+
+(* Spec.kill *)
+Definition ref_kill (s : refst) (r l : N) : refst :=
+  if mem r (rf_tracked s)
+  then mkRefSt (filter (fun kv => negb (doomed (S (length (rf_live s))) (rf_live s) r l (snd kv))) (rf_live s)) (rf_tracked s)
+  else s.
+
+(* Spec.step *)
+Definition ref_step (s : refst) (e : event) : refst :=
+  match e with
+  | EFull _ r l f p av _ =>
+    match aget f (rf_live s) with
+    | Some _ => mkRefSt (aset f (mkRob r l p av) (rf_live s)) (rf_tracked s)      (* announced again: moved / re-parented *)
+    | None => if mem r (rf_tracked s) then mkRefSt (aset f (mkRob r l p av) (rf_live s)) (rf_tracked s) else s
+    end
+  | EKill r l => ref_kill s r l
+  | EClear r => mkRefSt (filter (fun kv => negb (x_region (snd kv) =? r)) (rf_live s)) (sdel r (rf_tracked s))
+  | ETrack r => mkRefSt (rf_live s) (sadd r (rf_tracked s))
+  | _ => s
+  end.
+
+Definition ref_run (h : list event) : refst := fold_left ref_step h ref_init.
+
+(* the reference set of a history: full id -> (region, local id, parent id, avatar?) *)
+Definition ref_set (h : list event) : list (N * rob) := rf_live (ref_run h).
+
+(* what the model tracks, in the same shape *)
+Definition rob_of (o : obj) : rob := mkRob (o_region o) (o_lid o) (o_parent o) (o_av o).
+Definition tracked (w : world) : list (N * rob) := map (fun kv => (fst kv, rob_of (snd kv))) (w_full w).
+
+(* (region, local id, full id, parent id) tuples *)
+Definition tuples (m : list (N * rob)) : list (N * N * N * N) :=
+  map (fun kv => (x_region (snd kv), x_lid (snd kv), fst kv, x_parent (snd kv))) m.
